@@ -356,6 +356,10 @@ fn exec_c<C: GenericConfig<D, F = F>>(case: &Case, rep: &mut Report) {
             }
         }
     }
+    // ---------------- STARK entry point: verify_stark_proof on arbitrary proof values
+    if !replaying || case.only_struct.as_ref().map_or(false, |(e, _)| e == "stark") {
+        stark_section(case, &mut cx, &mut r);
+    }
     cx.rep.sample(json!({"config": built.cfg.class(), "proof_bytes": pb.len(), "byte_faults": plan_b.len(), "struct_faults": plan_s.len(), "dense": case.dense}));
 }
 
@@ -384,4 +388,73 @@ pub fn shrink(case: &Value) -> Vec<Value> {
         }
     }
     out.into_iter().map(|d| serde_json::to_value(d).unwrap()).collect()
+}
+
+fn stark_section(case: &Case, cx: &mut Ctx, r: &mut Rng) {
+    use crate::c09::{stark_prove, stark_verify, SCfg};
+    use crate::stark::*;
+    use starky::proof::StarkProofWithPublicInputs;
+    // shape (4, 1): a recurrence table or a lookup table, Poseidon
+    let mut rs = Rng::new(case.fault_seed ^ 0x57a4c);
+    let log_n = rs.range(2, 5);
+    let inst = loop {
+        let i = if rs.chance(1, 2) { crate::c10::gen_lookup_instance(&mut rs, log_n) } else { gen_instance(&mut rs, log_n, 3, true) };
+        if (i.def.cols, i.def.pis) == (4, 1) {
+            break i;
+        }
+    };
+    let mut scfg = SCfg::draw(&mut rs, log_n, inst.def.degree, true);
+    scfg.pow_bits = 0;
+    scfg.security_bits = 0;
+    let scfg = match scfg.admissible(log_n) {
+        Some(c) => c,
+        None => return,
+    };
+    let cfg = scfg.to_config();
+    case.sched.arm();
+    let proof = match stark_prove::<PC, 4, 1>(&inst.def, &cfg, &inst.rows, &inst.pis) {
+        Ok(p) => p,
+        Err(_) => return,
+    };
+    if stark_verify::<PC, 4, 1>(&inst.def, &cfg, &proof).is_err() {
+        return;
+    }
+    let tree = serde_json::to_value(&proof).unwrap();
+    let base_sig = hash_value(&json!([inst.def, log_n])) ^ hash_str(&scfg.class());
+    let mut faults: Vec<Fault> = match &case.only_struct {
+        Some((e, f)) if e == "stark" => vec![f.clone()],
+        _ => plan(&tree, r, case.dense, false).into_iter().filter(|f| !matches!(f, Fault::Elem { .. }) || r.chance(1, 6)).collect(),
+    };
+    if case.only_struct.is_none() {
+        // optional components switched off / on
+        for k in ["auxiliary_polys_cap", "quotient_polys_cap"] {
+            faults.push(Fault::Set { path: vec![Seg::K("proof".into()), Seg::K(k.into())], value: Value::Null });
+        }
+        for k in ["auxiliary_polys", "auxiliary_polys_next", "ctl_zs_first", "quotient_polys"] {
+            faults.push(Fault::Set { path: vec![Seg::K("proof".into()), Seg::K("openings".into()), Seg::K(k.into())], value: Value::Null });
+            faults.push(Fault::Set { path: vec![Seg::K("proof".into()), Seg::K("openings".into()), Seg::K(k.into())], value: json!([]) });
+        }
+        faults.push(Fault::Set { path: vec![Seg::K("proof".into()), Seg::K("openings".into()), Seg::K("ctl_zs_first".into())], value: json!([1, 2, 3]) });
+    }
+    for f in &faults {
+        let mut t = tree.clone();
+        if !apply(&mut t, f) {
+            continue;
+        }
+        let p2: StarkProofWithPublicInputs<F, PC, D> = match serde_json::from_value(t) {
+            Ok(p) => p,
+            Err(_) => continue,
+        };
+        cx.rep.fault(&format!("stark_struct.{}", f.kind()));
+        cx.rep.case(base_sig ^ hash_str("stark") ^ hash_value(&serde_json::to_value(f).unwrap()), true);
+        let (v, maxreq) = watched(|| stark_verify::<PC, 4, 1>(&inst.def, &cfg, &p2));
+        if maxreq > ALLOC_CAP {
+            cx.viol_s("stark", f, "huge_allocation_request", "verify_stark_proof", format!("{maxreq} bytes requested"));
+        }
+        match v {
+            Ok(Err(e)) if e.starts_with("panic: ") => cx.viol_s("stark", f, "verify_stark_proof_panicked", &site(&e[7..]), e),
+            Err(e) => cx.viol_s("stark", f, "verify_stark_proof_panicked", &site(&e), e),
+            _ => {}
+        }
+    }
 }
